@@ -100,6 +100,7 @@ def trace_batch(known, cases, subs):
         "drift": [(cases[b["i"] - 1][0], b) for b in v["drift"]],
         "subbad": [(subs[b["j"] - 1][0], b) for b in v["subbad"]],
         "subdrift": [(subs[b["j"] - 1][0], b) for b in v["subdrift"]],
+        "mdrift": [(cases[b["i"] - 1][0], b) for b in v.get("mdrift", [])],
     }
 
 
@@ -121,6 +122,35 @@ def describe(diag) -> str:
     return f": the {what} of {was} at {at} differ" + (f" ({args})" if n1 or n2 else "")
 
 
+SEAM_WORDS = {
+    "lists-merged": "consecutive lists were MERGED into one (the separator between them was lost)",
+    "list-nested": "a list that followed another list came back NESTED inside the last item of that list",
+    "list-split": "one list came back as several lists",
+    "blocks-changed": "the number of block nodes changed",
+}
+
+
+def seam_words(bd, first=True) -> str:
+    """Words for TLC's adjacency diagnosis (Trace_Unparse.ListStats / SeamOf)."""
+    st = bd.get("stats")
+    if not st or not bd.get("seam"):
+        return ""
+    a, b = (st[0], st[1]) if first or len(st) < 3 else (st[1], st[2])
+    return (f"; {SEAM_WORDS[bd['seam']]}: {a['lists']} LIST nodes ({a['nested']} nested) with {a['items']} items and "
+            f"{a['blocks']} block nodes before, {b['lists']} LIST nodes ({b['nested']} nested) with {b['items']} items and "
+            f"{b['blocks']} block nodes after")
+
+
+def outside_drift(summ, bd, text, emitted, first=True):
+    """Adjacency family only: the document holds a neighbour kind the statement's grammar does not name
+    (preformatted text, magic word) - TLC: Trace_Unparse.OutsideKinds - a difference there is DRIFT."""
+    summ["drift"] += 1
+    summ["outside"] += 1
+    if len(summ["drift_samples"]) < 2:
+        summ["drift_samples"].append({"text": text, "real": emitted, "outside_the_grammar":
+                                      (describe(bd.get("diag")) + seam_words(bd, first)).lstrip(":; ")})
+
+
 def soft_drift(summ, diag, text, emitted):
     """A difference at / below a LINK or URL with an empty argument (pipe-trick spelling [[a|]],
     [url ]): the statement's grammar does not clearly contain these forms - DRIFT, decided by TLC."""
@@ -137,9 +167,11 @@ def judge_texts(texts, known, summ, chunk_size=400):
     with Scratch("c19-") as d:
         ctx = ptree2.new_ctx(d)
         try:
-            for i, (label, text) in enumerate(texts):
+            for i, (label, text, *model) in enumerate(texts):
                 try:
                     recs[i] = chain(ctx, text, subs, i)
+                    if model and model[0] is not None:
+                        recs[i]["m"] = model[0]     # adjacency family: the tree the generator's block reader gives
                 except Exception as e:  # noqa: BLE001
                     summ["exceptions"].append({"origin": label, "text": text, "exception": repr(e)})
         finally:
@@ -160,7 +192,7 @@ def judge_texts(texts, known, summ, chunk_size=400):
         summ["trace"][2] += r["tlc"][2]
         summ["eligible"] += r["eligible"]
         for i, bd in r["bad"]:
-            label, text = texts[i]
+            label, text = texts[i][0], texts[i][1]
             rec = recs[i]
             first = not bd["e12"]
             got, ref = (rec["t2"], rec["t1"]) if first else (rec["t3"], rec["t2"])
@@ -169,16 +201,28 @@ def judge_texts(texts, known, summ, chunk_size=400):
             if diag.get("soft") and not bd["devs"]:
                 soft_drift(summ, diag, text, ptree2.concretise(rec["w1"] if first else rec["w2"]))
                 continue
+            if label.startswith("G:D7") and bd.get("outside") and not bd["devs"]:
+                outside_drift(summ, bd, text, ptree2.concretise(rec["w1"] if first else rec["w2"]), first)
+                continue
             summ["bad"].append({
                 "case": {"origin": label, "text": text, "wikitext1": ptree2.concretise(rec["w1"]),
                          "wikitext2": ptree2.concretise(rec["w2"]), "before": ptree2.show(ref), "after": ptree2.show(got),
                          "link_nodes": bd["links"]},
                 "why": ("first round trip" if first else "second round trip (not a fixed point)") + f" of {text!r} is not equivalent"
-                       + (" (number of LINK nodes changed)" if link else "") + describe(diag)
+                       + (" (number of LINK nodes changed)" if link else "") + describe(diag) + seam_words(bd, first)
                        + f"; emitted {ptree2.concretise(rec['w1'] if first else rec['w2'])!r}",
                 "devs": sorted(bd["devs"]),
                 "cls": ("rt1 " if first else "rt2 ") + label.rsplit("/", 1)[0] + (" LINK-count" if link else "")
-                       + (f" {diag['what']}:{diag['was']}" if diag.get("what") else "")})
+                       + (f" {diag['what']}:{diag['was']}" if diag.get("what") else "")
+                       + (f" {bd['seam']}" if bd.get("seam") else "")})
+        for i, bd in r["mdrift"]:
+            # adjacency family: the real parser reads the document differently from the generator's block reader
+            # (a statement about the parser, not about the round trip): DRIFT
+            summ["drift"] += 1
+            summ["mdrift"] += 1
+            if len(summ["drift_samples"]) < 2:
+                summ["drift_samples"].append({"text": texts[i][1], "parsed_differently_from_the_block_reader":
+                                              describe(bd.get("diag")).lstrip(": "), "parsed": ptree2.show(recs[i]["t1"]["children"])})
         for i, bd in r["drift"]:
             summ["drift"] += 1
             if len(summ["drift_samples"]) < 2:
@@ -190,14 +234,19 @@ def judge_texts(texts, known, summ, chunk_size=400):
             if diag.get("soft") and not bd["devs"]:
                 soft_drift(summ, diag, texts[sv["from"]][1], ptree2.concretise(sv["w"]))
                 continue
+            if texts[sv["from"]][0].startswith("G:D7") and bd.get("outside") and not bd["devs"]:
+                outside_drift(summ, bd, texts[sv["from"]][1], ptree2.concretise(sv["w"]))
+                continue
             summ["bad"].append({
                 "case": {"origin": "direct", "value": ptree2.show(sv["x"]["list"] if "list" in sv["x"] else sv["x"]),
                          "wikitext": ptree2.concretise(sv["w"]), "after": ptree2.show(sv["t"]),
                          "from_document": texts[sv["from"]][1]},
-                "why": f"node_to_wikitext of a directly passed value re-parses differently: {ptree2.concretise(sv['w'])!r}" + describe(diag),
+                "why": f"node_to_wikitext of a directly passed value re-parses differently: {ptree2.concretise(sv['w'])!r}" + describe(diag)
+                       + seam_words(bd),
                 "devs": sorted(bd["devs"]),
                 "cls": "direct " + ("list" if "list" in sv["x"] else sv["x"].get("kind", "string"))
-                       + (f" {diag['what']}:{diag['was']}" if diag.get("what") else "")})
+                       + (f" {diag['what']}:{diag['was']}" if diag.get("what") else "")
+                       + (f" {bd['seam']}" if bd.get("seam") else "")})
         for k, bd in r["subdrift"]:
             summ["drift"] += 1
             if len(summ["drift_samples"]) < 2:
@@ -218,6 +267,7 @@ def count_arms(t, arms):
 
 def new_summary():
     return {"n": 0, "gen": [0, 0, 0.0], "trace": [0, 0, 0.0], "fam": {}, "shapes": set(), "arms": {}, "subs": 0, "eligible": 0, "soft": 0,
+            "mdrift": 0, "outside": 0, "adj": 0, "seams": None,
             "bad": [], "drift": 0, "drift_samples": [], "exceptions": [], "sample": None}
 
 
@@ -240,7 +290,16 @@ def pipeline_job(jobs):
                     t = ptree2.concretise(c[style])
                     if t not in seen:
                         seen.add(t)
-                        texts.append((f"G:{c['fam']}/{c['ctx']}/{style}", t))
+                        texts.append((f"G:{c['fam']}/{c['ctx']}/{style}", t, c.get("m")))
+                        summ["adj"] += "m" in c
+        elif job[0] == "seams":
+            # M, block adjacency: the block reader applied to the emitted text of every list-only document
+            # (Gen_Unparse.Seams, one state): the ideal emitter round-trips, the what-if that drops the blank
+            # between two lists does not (TLC prints its witness), the one that spares lists does
+            r = tlc("Gen_Unparse", "Gen_Unparse_S.cfg", workers=1, timeout=3000)
+            summ["seams"] = {"tlc": [r.distinct, r.generated, r.wall], "fail": r.tagged("SEAMFAIL"), "whatif": r.tagged("SEAMWHATIF")}
+            out.append(summ)
+            continue
         else:
             _, texts, known = job
         judge_texts(texts, known, summ)
@@ -282,7 +341,11 @@ def run(tier: str) -> int:
     o.rule = ("G: every document of Gen_Unparse (families D1 block context x inline, D2 block in block, D3 block pairs, "
               "D4 inline pairs, D5 literal brackets across text runs, D6 empty parts: templates / parser functions / magic-word "
               "forms / argument references / links whose arguments are all, partly, first-only, last-only empty or blank, in "
-              "every block context, inline wrapper and outer block; depth 3 quick / 4 thorough) in two spellings is one case; "
+              "every block context, inline wrapper and outer block, D7 adjacency: ordered pairs and triples of block kinds (lists "
+              "of every marker kind and depth, list with sub-list, term + definition line, table, heading, rule, paragraph, "
+              "preformatted line, div, magic word) x separator (line break only, one / two blank lines, a line of blanks, a comment "
+              "line with / without a blank line) at top level, under a heading, in a table cell, in a div, in a list item, with the "
+              "tree TLC's block reader gives; depth 3 quick / 4 thorough) in two spellings is one case; "
               "V: every distinct sub-tree, string "
               "and child list of the first trees passed directly.  distinct_nontrivial = distinct shapes (kinds, tags, "
               "attribute counts, nesting; texts ignored) of the first parse trees.")
@@ -294,11 +357,14 @@ def run(tier: str) -> int:
         "a difference at or below a LINK / URL that has an EMPTY argument ([[a|]] is the pipe-trick spelling, [url ] an "
         "external link with an empty text) is DRIFT (TLC: Trace_Unparse.Diff.soft); empty arguments of templates, parser "
         "functions and argument references are in the statement (same nodes, same arguments)",
+        "adjacency family D7: a document that holds a preformatted line or a magic word (kinds the statement's grammar does "
+        "not name; TLC: Trace_Unparse.OutsideKinds) is judged like the others but a difference is DRIFT; that the real parser "
+        "reads a D7 document as the tree of TLC's block reader (Gen_Unparse.ReadEls) is DRIFT too (a statement about the parser)",
     ]
     known = sorted(o.known)
     depth = 4 if thorough else 3
     parts = 48 if thorough else 12
-    jobs = [("gen", depth, p, parts, known) for p in range(parts)] + [("texts", EXTRA_DOCS, known)]
+    jobs = [("gen", depth, p, parts, known) for p in range(parts)] + [("texts", EXTRA_DOCS, known), ("seams",)]
     # M: the round trip inside the model (twin of the table / HTML / call fragment)
     with Scratch("c19m-") as d:
         import c03
@@ -327,9 +393,26 @@ def run(tier: str) -> int:
     gen = common.TLCResult("", 0, 0.0)
     tr = common.TLCResult("", 0, 0.0)
     fam, arms = {}, {}
-    subs = eligible = soft = 0
+    subs = eligible = soft = adj = mdrift = outside = 0
     for summ in res:
+        if summ["seams"]:
+            sm = summ["seams"]
+            wi = {w["dev"]: w for w in sm["whatif"]}
+            drop, spare = wi.get("BlankBetweenOwnLineNodesDropped"), wi.get("BlankBetweenOwnLineNodesDroppedExceptLists")
+            if sm["fail"] or not drop or not spare or not (drop["merged"] and drop["nested"]) or spare["broken"]:
+                raise common.TLCError("Gen_Unparse Seams: the in-model round trip of the list-adjacency documents failed, the what-if "
+                                      "that drops the blank between two lists lost its witness, or the one that spares lists breaks something")
+            st = common.TLCResult("", 0, 0.0)
+            st.distinct, st.generated, st.wall = sm["tlc"]
+            o.add_tlc("Gen_Unparse Seams (block reader on the emitted text, in the model)", st)
+            o.extra["seam_whatif_witnesses"] = [
+                {"what_if": w["dev"], "documents": w["docs"], "broken": w["broken"], "lists_merged": w["merged"], "list_nested": w["nested"],
+                 "text": ptree2.concretise(w["text"]), "emitted": ptree2.concretise(w["emitted"])} for w in sm["whatif"]]
+            continue
         soft += summ["soft"]
+        adj += summ["adj"]
+        mdrift += summ["mdrift"]
+        outside += summ["outside"]
         gen.distinct += summ["gen"][0]
         gen.generated += summ["gen"][1]
         gen.wall = max(gen.wall, summ["gen"][2])
@@ -351,6 +434,9 @@ def run(tier: str) -> int:
     o.extra["direct_values_recorded"] = subs
     o.extra["direct_values_self_contained"] = eligible
     o.extra["empty_link_argument_differences_as_drift"] = soft
+    o.extra["adjacency_texts_with_model_tree"] = adj
+    o.extra["adjacency_texts_parsed_differently_from_the_block_reader_as_drift"] = mdrift
+    o.extra["adjacency_differences_outside_the_grammar_as_drift"] = outside
     # which arms of the transcribed emitter were exercised: node kinds of the serialised trees
     o.extra["action_coverage"] = dict(sorted(arms.items()))
     o.exhaustive = True
@@ -392,7 +478,9 @@ def selftest() -> int:
     turning text into a LINK or changing inner whitespace in t2 is rejected; adding blank
     lines at block boundaries is accepted.  Empty parts: dropping an empty argument of a parser
     function / template / link or turning the parser function into a template is rejected, with
-    TLC's diagnosis (the link one marked soft)."""
+    TLC's diagnosis (the link one marked soft).  Block adjacency: merging the second of two consecutive lists
+    into the first one, or hanging a list into the last item of the list before it, in a recorded t2 is rejected and
+    TLC names it (lists-merged / list-nested); more blank lines between the lists are accepted."""
     import copy
 
     common.use_repo()
@@ -460,15 +548,45 @@ def selftest() -> int:
     v = copy.deepcopy(rec2)
     find_any(v["t2"], "LINK")["largs"].pop()
     variants.append(("empty argument of [[l|]] missing in t2 (rejected, marked soft = DRIFT)", v, True))
+    # block adjacency: two lists that follow each other are two lists
+    text3 = "* a1\n* a2\n\n* b1\n\n# c1\n\n#: d1\n"
+    with Scratch("c19s-") as d:
+        ctx = ptree2.new_ctx(d)
+        rec3 = chain(ctx, text3, None, 0)
+        ctx.db_conn.close()
+    expect_seam = {}
+    variants.append(("intact, four lists separated by blank lines", rec3, False))
+    v = copy.deepcopy(rec3)
+    kids = v["t2"]["children"]
+    lists = [k for k, x in enumerate(kids) if "kind" in x and x["kind"] == "LIST"]
+    ok_shape = len(lists) == 4
+    if ok_shape:
+        kids[lists[0]]["children"] += kids[lists[1]]["children"]
+        del kids[lists[0] + 1:lists[1] + 1]
+    variants.append(("second list merged into the first one in t2", v, True))
+    expect_seam[variants[-1][0]] = "lists-merged"
+    v = copy.deepcopy(rec3)
+    kids = v["t2"]["children"]
+    if ok_shape:
+        kids[lists[2]]["children"][-1]["children"].append(kids[lists[3]])
+        del kids[lists[2] + 1:lists[3] + 1]
+    variants.append(("list #: hung into the last item of the list # before it in t2", v, True))
+    expect_seam[variants[-1][0]] = "list-nested"
+    v = copy.deepcopy(rec3)
+    if ok_shape:
+        v["t2"]["children"][lists[0] + 1]["s"] = ["NL", "NL", "NL"]
+    variants.append(("more blank lines between two lists in t2", v, False))
     res = trace_batch([], [(i, r) for i, (_, r, _) in enumerate(variants)], [])
     bad = {i: b for i, b in res["bad"]}
     ok = True
     for i, (name, _, expect_bad) in enumerate(variants):
         got = i in bad
-        print(f"  {name}: {'rejected' if got else 'accepted'}" + (describe(bad[i].get("diag")) if got else ""))
+        print(f"  {name}: {'rejected' if got else 'accepted'}" + (describe(bad[i].get("diag")) + seam_words(bad[i]) if got else ""))
         ok &= got == expect_bad
+        if got:
+            ok &= bad[i].get("seam", "") == expect_seam.get(name, "")
         if got and "soft" in name:
             ok &= bad[i]["diag"]["soft"] is True
         elif got:
             ok &= bad[i]["diag"]["soft"] is False and bad[i]["diag"]["what"] != ""
-    return 0 if ok else 1
+    return 0 if ok and ok_shape else 1
